@@ -31,15 +31,26 @@ func DirTruncated() {
 	vrt.Assume(si < len(l.Segs) && len(l.Segs[si].Recs) > 0)
 	l.Build("d")
 	s := &l.Segs[si]
-	total := len(s.LogBytes())
-	L := vrt.IntRange("L", 8, total-1)
-	vrt.Truncate(vrt.SegName(l.Dir, s.Base, ".log"), L)
 	pos := 8
 	var ends []int
+	starts := []int{}
 	for _, r := range s.Recs {
+		starts = append(starts, pos)
 		pos += kit.RecordSize(false, len(r.Key), len(r.Val))
 		ends = append(ends, pos)
 	}
+	// the cut falls inside the header (part 0) or the data (part 1) of record ck
+	ck := vrt.Choose("cutrec", vrt.Bound("recs", 2))
+	vrt.Assume(ck < len(s.Recs))
+	var L int
+	if vrt.Choose("cutpart", 2) == 0 {
+		L = vrt.IntRange("L", starts[ck], starts[ck]+27)
+		vrt.Reach("cut-in-header")
+	} else {
+		L = vrt.IntRange("L", starts[ck]+28, ends[ck]-1)
+		vrt.Reach("cut-in-data")
+	}
+	vrt.Truncate(vrt.SegName(l.Dir, s.Base, ".log"), L)
 	lg, err := klevdb.Open(l.Dir, l.Options())
 	if err != nil {
 		vrt.Reach("open-fails")
